@@ -514,31 +514,61 @@ pub fn knot_x(rng: &mut Rng) -> f64 {
     }
 }
 
+fn integ_event(c: &[f64], knot: Knot, pa: f64, pb: f64, via_segment: bool, sink: &mut Sink) {
+    let len = c.len();
+    // via the polynomial's own integral() and via Segment::integral (used by piecewise)
+    let (indef, integ, dback, fa, fb): (Vec<f64>, Vec<f64>, Vec<f64>, f64, f64) = crate::with_int_poly_type!(len, T, {
+        let p = T::from_flat(c);
+        if via_segment {
+            let s = Segment { end: 1.0, poly: p };
+            let i = s.integral(knot);
+            (s.indefinite().poly.flat(), i.poly.flat(), i.derivative().poly.flat(), i.evaluate(pa), i.evaluate(pb))
+        } else {
+            let i = p.integral(knot);
+            (p.indefinite().flat(), i.flat(), i.derivative().flat(), i.evaluate(pa), i.evaluate(pb))
+        }
+    });
+    sink.ev(json!({"ev":"integ","type":format!("{}Poly{}", if via_segment {"Segment:"} else {""}, len - 1),"c":jbs(c),
+        "kx":jb(knot.x),"ky":jb(knot.y),"indef":jbs(&indef),"integ":jbs(&integ),"dback":jbs(&dback),
+        "pa":jb(pa),"pb":jb(pb),"fa":jb(fa),"fb":jb(fb)}));
+}
+
 pub fn drive_integ(seed: u64, rounds: usize, sink: &mut Sink) -> usize {
     let mut rng = Rng::new(seed);
     let mut nontrivial = 0;
-    for _ in 0..rounds {
+    for round in 0..rounds {
         for len in 1..=8usize {
             let c = coeffs(&mut rng, len);
             let knot = Knot { x: knot_x(&mut rng), y: if rng.below(4) == 0 { 0.0 } else { rng.float_exp(-10, 10) } };
             let (pa, pb) = (knot_x(&mut rng), knot_x(&mut rng));
-            // via the polynomial's own integral() and via Segment::integral (used by piecewise)
             let via_segment = rng.bool();
-            let (indef, integ, dback, fa, fb): (Vec<f64>, Vec<f64>, Vec<f64>, f64, f64) = crate::with_int_poly_type!(len, T, {
-                let p = T::from_flat(&c);
-                if via_segment {
-                    let s = Segment { end: 1.0, poly: p };
-                    let i = s.integral(knot);
-                    (s.indefinite().poly.flat(), i.poly.flat(), i.derivative().poly.flat(), i.evaluate(pa), i.evaluate(pb))
-                } else {
-                    let i = p.integral(knot);
-                    (p.indefinite().flat(), i.flat(), i.derivative().flat(), i.evaluate(pa), i.evaluate(pb))
-                }
-            });
-            sink.ev(json!({"ev":"integ","type":format!("{}Poly{}", if via_segment {"Segment:"} else {""}, len - 1),"c":jbs(&c),
-                "kx":jb(knot.x),"ky":jb(knot.y),"indef":jbs(&indef),"integ":jbs(&integ),"dback":jbs(&dback),
-                "pa":jb(pa),"pb":jb(pb),"fa":jb(fa),"fb":jb(fb)}));
+            integ_event(&c, knot, pa, pb, via_segment, sink);
             nontrivial += 1;
+        }
+        if round % 3 == 0 {
+            // history: a FAMILY of related calls -- truncations and extensions of one coefficient vector, through the same
+            // knot abscissa, degrees in descending or shuffled order, now and then one coefficient changed: whatever a call
+            // leaves behind (a memo keyed on a prefix, on the abscissa, on the degree) meets its nearest relatives next
+            let base = coeffs(&mut rng, 8);
+            let kx = knot_x(&mut rng);
+            let mut lens: Vec<usize> = (1..=8).rev().collect();
+            if rng.bool() {
+                for i in (1..lens.len()).rev() {
+                    let j = rng.below(i as u64 + 1) as usize;
+                    lens.swap(i, j);
+                }
+            }
+            let via_segment = rng.bool();
+            for len in lens {
+                let mut c = base[..len].to_vec();
+                if rng.below(4) == 0 {
+                    let j = rng.below(len as u64) as usize;
+                    c[j] += 1.0;
+                }
+                let knot = Knot { x: kx, y: rng.float_exp(-3, 3) };
+                integ_event(&c, knot, knot_x(&mut rng), knot_x(&mut rng), via_segment, sink);
+                nontrivial += 1;
+            }
         }
     }
     nontrivial
@@ -910,10 +940,37 @@ fn near_switch(thr: f64, rng: &mut Rng) -> f64 {
     v
 }
 
+/// History stratum "cold start": a short sequence of calls on a FRESH thread, so that whatever the library keeps per
+/// thread starts empty and is warmed up in this order (a long-running driver thread shows each warm-up order once).
+pub fn on_fresh_thread<T: Send + 'static>(f: impl FnOnce() -> T + Send + 'static) -> T {
+    std::thread::spawn(f).join().expect("fresh-thread sequence (the calls inside are guarded)")
+}
+
 pub fn drive_quartic(seed: u64, n: usize, extra: &str, sink: &mut Sink) -> usize {
     let mut rng = Rng::new(seed);
     let mut nontrivial = 0;
     for it in 0..n {
+        if it % 16 == 5 {
+            // cold start: three arguments of different size classes (|ln v| tiny / moderate / beyond the series switch, either
+            // side of 1) in a random order, on a fresh thread
+            let mut vs: Vec<f64> = vec![
+                1.0 + (rng.unit() - 0.5) * 2f64.powi(-(rng.below(40) as i32)),
+                (-(0.2 + 1.4 * rng.unit()) * if rng.bool() { 1.0 } else { -1.0 }).exp(),
+                (-(2.0 + 6.0 * rng.unit()) * if rng.bool() { 1.0 } else { -1.0 }).exp(),
+            ];
+            let j = rng.below(3) as usize;
+            vs.swap(0, j);
+            if rng.bool() {
+                vs.swap(1, 2);
+            }
+            let ps: Vec<(f64, [f64; 4], f64)> = (0..3).map(|_| quartic_params(&mut rng)).collect();
+            let (vs2, ps2) = (vs.clone(), ps.clone());
+            let ys: Vec<f64> = on_fresh_thread(move || vs2.iter().zip(ps2.iter()).map(|(&v, &(k, c, u))| IntOfLogPoly4 { k, coeffs: c, u }.evaluate(v)).collect());
+            for ((v, (k, c, u)), y) in vs.iter().zip(ps.iter()).zip(ys.iter()) {
+                sink.ev(json!({"ev":"quartic","k":jb(*k),"c":jbs(c),"u":jb(*u),"v":jb(*v),"y":jb(*y)}));
+                nontrivial += 1;
+            }
+        }
         let (k, c, u) = quartic_params(&mut rng);
         let v = match it % 8 {
             0 => {
@@ -1046,7 +1103,7 @@ macro_rules! pwint_case {
         let n = if !log && $rng.below(40) == 0 { $rng.long_len().min(65) } else { 1 + $rng.size(5, 12, 4) as usize };
         let ends = if log { sorted_pos_ends($rng, n) } else { sorted_any_ends($rng, n) };
         let ar = <$T as Form>::arity().unwrap();
-        let pw: Piecewise<$T> = Piecewise {
+        let mut pw: Piecewise<$T> = Piecewise {
             segments: ends.iter().map(|&e| Segment { end: e, poly: <$T>::from_flat(&(0..ar).map(|_| if $rng.bool() { $rng.nice() } else { $rng.float_exp(-3, 3) }).collect::<Vec<f64>>()) }).collect(),
         };
         // knot: at, inside, left of the first piece, or beyond it
@@ -1059,6 +1116,21 @@ macro_rules! pwint_case {
             _ => *$rng.pick(&ends) * if log { 1.5 } else { 1.0 } + if log { 0.0 } else { 0.25 },
         };
         let k0 = Knot { x: kx, y: if $rng.below(3) == 0 { 0.0 } else { $rng.float_exp(-3, 3) } };
+        // the function as built, then (one in three) the SAME object edited in place and integrated again
+        for round in 0..2 {
+        if round == 1 {
+            if $rng.below(3) != 0 {
+                break;
+            }
+            crate::order::edit_in_place($rng, &mut pw, true);
+            if pw.segments.iter().any(|s| !s.end.is_finite() || (log && !(s.end > 0.0))) {
+                break;
+            }
+        }
+        let ends: Vec<f64> = ends_of(&pw);
+        if $rng.bool() {
+            disturb(k0.x); // other forms evaluated at the knot abscissa just before the chain evaluates there
+        }
         let res = pw.integral(k0);
         let ind = pw.indefinite();
         let by_ref: Vec<_> = Segment::integral_iter_ref(&pw.segments, k0).collect();
@@ -1090,6 +1162,7 @@ macro_rules! pwint_case {
             "rends":jbs(&ends_of(&res)),"res":res.segments.iter().map(|s| jbs(&s.poly.flat())).collect::<Vec<_>>(),
             "iends":jbs(&ends_of(&ind)),"ind":ind.segments.iter().map(|s| jbs(&s.poly.flat())).collect::<Vec<_>>(),
             "itereq":iter_eq,"joins":joins,"ts":jbs(&ts),"fts":jbs(&fts),"its":jbs(&its)}));
+        }
     }};
 }
 
